@@ -171,6 +171,34 @@ class ArrayVal(SeriesVal):
         return 1
 
 
+class RangeIndexVal(ArrayVal):
+    """pd.RangeIndex(start, stop, step): the labels start, start+step, ... strictly before stop; never a missing label.  `step` is a
+    concrete non-zero integer (the callers split over a few), start / stop are arbitrary integers."""
+
+    @classmethod
+    def make_range(cls, name, pdtype, step, space=None):
+        a = cls.make(name, pdtype, "real", is_index=True, space=space)
+        p = cur()
+        start, stop = core.sym_int(f"{name}.start"), core.sym_int(f"{name}.stop")
+        for nm, v in (("start", start), ("stop", stop)):
+            core.register_model_var(f"{name}.{nm}", v.z)
+        core.register_model_var(f"{name}.step", lambda m, s=step: str(s))
+        a.start, a.stop, a.step = start, stop, step
+        n = a.space.n.z
+        span = (stop.z - start.z) if step > 0 else (start.z - stop.z)
+        k = abs(step)
+        # len(range(start, stop, step)) == max(0, ceil(span / |step|))
+        p.assume(SBool(n == z3.If(span > 0, (span + k - 1) / k, 0)))
+        i = z3.Int(p.fresh_name("ri"))
+        p.assume(SBool(z3.ForAll([i], z3.Implies(z3.And(i >= 0, i < n), z3.And(a.sel(i), z3.Not(a.null(i)), a.at(i).z == z3.ToReal(start.z + i * step))))))
+        return a
+
+    def pyvc_class(self):
+        import pandas as pd
+
+        return pd.RangeIndex
+
+
 class MultiIndexVal:
     __pyvc_symbolic__ = True
 
